@@ -28,6 +28,14 @@ def augment_exception_message_and_reraise(exception, message):
     def __init__(self):
       pass
 
+    def __getattribute__(self, attr_name):
+      # Public attributes (`args`, `errno`, `value`, `name`, ...) are stored in
+      # the C-level exception struct, where `__getattr__` never gets to see
+      # them: read them from the original exception.
+      if attr_name.startswith('_') or attr_name in ('with_traceback', 'add_note'):
+        return super().__getattribute__(attr_name)
+      return getattr(exception, attr_name)
+
     def __getattr__(self, attr_name):
       return getattr(exception, attr_name)
 
@@ -35,9 +43,16 @@ def augment_exception_message_and_reraise(exception, message):
       return str(exception) + message
 
   ExceptionProxy.__name__ = type(exception).__name__
-
-  proxy = ExceptionProxy()
   ExceptionProxy.__qualname__ = type(exception).__qualname__
+
+  try:
+    # Some exception types (e.g. exception groups) have required `__new__`
+    # arguments; `__init__` is deliberately not run.
+    proxy = type(exception).__new__(ExceptionProxy, *exception.args)
+  except TypeError:
+    proxy = None
+  if proxy is None:
+    raise exception  # Can't build a proxy: don't mask the original exception.
   raise proxy.with_traceback(exception.__traceback__)
 
 
